@@ -7,7 +7,8 @@ FAMILY = "tl1"
 F6_SIG = "C01:F6:length-sanity-rejects-written-value"
 
 
-def run(ctx):
+def run(ctx, props=PROPS, random_only=False, nrand=None):
+    PROPS = props
     quick = ctx.quick()
     with Lock():
         cres = run_genconsts()
@@ -21,7 +22,7 @@ def run(ctx):
     units = []
     if not berr:
         import randschema
-        specs = repo_corpus(quick) + randschema.make_specs(ctx, 8 if quick else 60)
+        specs = ([] if random_only else repo_corpus(quick)) + randschema.make_specs(ctx, nrand or (8 if quick else 60))
         units = prepare_units(ctx, specs, bins)
     nvals = 16 if quick else 150
     stats = {"schemas": 0, "types": 0, "values": 0, "rw_ops": 0, "go_rand_values": 0, "budget_skips": 0,
